@@ -131,6 +131,20 @@ def work_asym(chunk, st):
                              {'cat': cat, 's2c': list(s2c), 'c2s': list(c2s), 'role': role, 'opts': opts, 'status': res.status, 'stdout_tail': res.stdout[-300:]})
 
 
+def work_zoo(chunk, st):
+    from props import zoo
+    for e in map(zoo.get, chunk):
+        ref = None
+        for opts in (['-n'], ['-n', '-j'], ['-n', '-b', '-l', 'warn'], ['-n', '-v']):
+            res = zoo.audit(e, opts + (['-1'] if e['ssh1'] and not e['versions_differ'] else []))
+            if ref is None:
+                ref = fold(report.TextReport(res.stdout).levels()) if res.status in (0, 2, 3) else res.status
+            st.execution(res.world, outcome=('zoo', res.status, ref), root=('zoo', e['name'], tuple(opts)), nontrivial=('zoo', e['name'], tuple(opts)), detail='light')
+            if res.status != ref:
+                st.violation('zoo:status-%s-but-report-folds-to-%s' % (res.status, ref), {'peer': e['name'], 'opts': opts, 'status': res.status, 'stdout_tail': res.stdout[-300:]})
+    st.sample({'zoo_peers': list(chunk[:3])}, cap=3)
+
+
 def work_client(chunk, st):
     for sel in chunk:
         check_client(sel, st)
@@ -318,6 +332,8 @@ def run(tier, seed):
     par.pmap(work_client, [s for s in itertools.product(l1, repeat=4)] + ([s for s in sev if sum(len(x) for x in s) <= 4][::7] if tier != 'quick' else []), stats=st)
     par.pmap(work_ssh1, [(c, a) for c in range(0, 128, 1 if tier != 'quick' else 3) for a in (0, 0x0c, 0x2c, 0x7e)], stats=st)
     par.pmap(work_asym, asym_tasks(), stats=st)
+    from props import zoo
+    par.pmap(work_zoo, zoo.names(tier), stats=st, chunk=6)
     par.pmap(work_broken, broken_tasks(tier), stats=st)
     par.pmap(work_policy, policy_cases(), stats=st, procs=1)
     vcases = []
@@ -333,7 +349,7 @@ def run(tier, seed):
         PID, tier, seed, st, t0,
         rule='severity classes {fail, fail+warn, warn, clean, unknown} per category (representatives from the DB: %s); %s; '
              'all selections of total length <=%d x %d option sets; every fault of the menu on the initial connection(s) of archetypes A,E,E1,F,G '
-             '(truncation every %s byte) x {text,json}; policy verdict cases x {text,json}; direction-asymmetric cipher/MAC lists (every class pair, both roles, 4 option sets)' % (
+             '(truncation every %s byte) x {text,json}; policy verdict cases x {text,json}; direction-asymmetric cipher/MAC lists (every class pair, both roles, 4 option sets); the fold oracle over every peer of props/zoo.py x 4 option sets' % (
                  json.dumps(reps()), 'all four categories crossed at length <=1 plus all pairs of categories with lists of length 0..2'
                  if tier == 'quick' else 'all lists of length 0..2 in all four categories crossed', 2 if tier == 'quick' else 3,
                  len(OPTSETS), '8th' if tier == 'quick' else '1st'),
